@@ -26,7 +26,7 @@ ASSUMPTIONS = ['fine bin j of coarse channel c (file order) maps to OBSFREQ + (c
 
 def required(tier):
     b = {'orient:asc': 20, 'orient:desc': 20, 'start_chan:0': 10, 'start_chan:>0': 30, 'kind:tone': 50, 'kind:chirp': 30,
-         'kind:reducers': 20, 'stem-re-recorded': 40, 'reducer:aligned-header': 8, 'reducer:key-begins-with-END': 4, 'chirp:neg': 8, 'chirp:pos': 8, 'array': 10, 'reducer:from_raw': 10, 'reducer:directio-off': 3, 'reducer:directio-on': 3, 'tone:mm-wave-band-sub-Hz-bins': 10, 'chirp:second-scan-from-the-same-source': 8, 're-recorded-through-from_data:start_chan>0': 8}
+         'kind:reducers': 20, 'stem-re-recorded': 40, 'reducer:aligned-header': 8, 'reducer:key-begins-with-END': 4, 'chirp:neg': 8, 'chirp:pos': 8, 'array': 10, 'reducer:from_raw': 10, 'reducer:directio-off': 3, 'reducer:directio-on': 3, 'tone:mm-wave-band-sub-Hz-bins': 10, 'chirp:second-scan-from-the-same-source': 8, 're-recorded-through-from_data:start_chan>0': 8, 'reducer:odd-fft-length': 8}
     return {'buckets': b, 'counters': {'tones_located': 60, 'chirp_rows_located': 60}, 'checks': 300, 'nontrivial': 60}
 
 
@@ -40,6 +40,8 @@ def gen_cases(seed, tier):
         L = int(common.pick(rng, [8, 16, 32, 64] + ([256] if tier == 'thorough' else [])))
         if kind == 'chirp':
             L = int(common.pick(rng, [32, 64] + ([256] if tier == 'thorough' else [])))
+        if kind == 'reducers' and common.stratum(i, 76, 3) == 0:
+            L = int(common.pick(rng, [9, 15, 27, 7]))        # odd fine FFT lengths are lengths too
         # millimetre-wave band at sub-Hz resolution: the header must carry the band centre to far better than one part in 1e12
         hires = kind == 'tone' and common.stratum(i, 75, 5) == 0
         if hires:
@@ -296,6 +298,8 @@ def _judge(stg, raw_utils, c, cfg, L, rec, stem, f_tone, drift, fine, tbin, chan
             got=rp['chan_bw'], want=chan_bw)
     if c['kind'] != 'reducers':
         return
+    if L % 2:
+        R.bucket('reducer:odd-fft-length')
     # ---- reducers
     v = stg.voltage
     intf = c['intf']
